@@ -31,6 +31,7 @@ def u_store(strategy):
     m = ctx.fresh(Atom, 'metric')
     ts = ctx.fresh(R, 'ts')
     v = ctx.fresh(Val, 'value')
+    k_any = ctx.fresh(Atom, 'any_metric')
     # store() runs on the reactor thread: between its atomic steps outside the lock the writer
     # thread may pop metrics (rely G_W*).  The contract relates the state at lock release to the
     # state at lock acquisition (the linearisation point).
@@ -46,6 +47,10 @@ def u_store(strategy):
       snap['nm0'] = hs.new_metrics.term
       snap['flag0'] = hs.state.attrs['cacheTooFull']
       ctx.assume(z3.Implies(z3.Not(inf), z3.ToReal(snap['size0']) <= hs.hard))          # C10 bound (pre)
+      # I_nonempty (C17, lock invariant): no cached metric maps to an empty dict -- instantiated at
+      # the stored metric and at an arbitrary other one (a Skolem constant stands for "every")
+      for x in (m, k_any):
+        ctx.assume(z3.Implies(z3.Select(d.keys, x), IM.icard(z3.Select(d.inner, x)) >= 1))
       f0 = snap['flag0'] if z3.is_expr(snap['flag0']) else z3.BoolVal(bool(snap['flag0']))
       ctx.assume(z3.Implies(z3.And(f0, z3.Not(inf)), z3.ToReal(snap['size0']) >= hs.low))   # C09 (pre)
       hs.log.clear()
@@ -93,6 +98,9 @@ def u_store(strategy):
     accepted = z3.And(z3.Not(present), stored1)
     base_im = z3.If(in0, im0, EMPTY_IM)
 
+    # ---- C17: I_nonempty re-established at lock release ----
+    ctx.check('C17/store/I_nonempty', z3.And(*[z3.Implies(z3.Select(d.keys, x), IM.icard(z3.Select(d.inner, x)) >= 1)
+                                               for x in (m, k_any)]))
     # ---- C10 ----
     ctx.check('C10/store/bound', z3.Implies(z3.Not(inf), z3.ToReal(size1) <= hs.hard))
     ctx.check('C10/store/refuse_signal', z3.And(z3.Implies(refused, z3.BoolVal(overflow == 1)),
